@@ -17,30 +17,69 @@ let () =
       (match words hd with
        | ["cmp"; _threads; _sched; mode; _spin; seed] ->
          let mode = int_of_string mode in
-         (* a member is "<nt> <w>" (PTG) or "b" (bare taskpool) *)
-         let members = List.filter_map (fun m -> match words m with
-                        | [nt; _w] -> Some (Some (int_of_string nt)) | ["b"] -> Some None | [] -> None | _ -> failwith "member") (split_on ';' body) in
+         (* a member is "<nt> <w>" (PTG), "b" (bare taskpool) or "( members )" (a nested compound) *)
+         let toks = List.concat_map (fun w ->
+             let b = Buffer.create 8 and out = ref [] in
+             let flush () = if Buffer.length b > 0 then (out := Buffer.contents b :: !out; Buffer.clear b) in
+             String.iter (fun ch -> match ch with
+               | '(' | ')' | ';' -> flush (); out := String.make 1 ch :: !out
+               | c -> Buffer.add_char b c) w;
+             flush (); List.rev !out) (words body) in
+         let rec group toks acc =        (* -> (children, rest) up to the matching ")" *)
+           match toks with
+           | [] -> (List.rev acc, [])
+           | ")" :: r -> (List.rev acc, r)
+           | ";" :: r -> group r acc
+           | "(" :: r -> let (ch, r') = group r [] in group r' (CNode ch :: acc)
+           | "b" :: r -> group r (CLeaf None :: acc)
+           | nt :: _w :: r -> group r (CLeaf (Some (nat_of_int (int_of_string nt))) :: acc)
+           | _ -> failwith "member" in
+         let (children, _) = group toks [] in
+         (* parsec_compose: a group of one element is that element; a group that starts with a group continues it *)
+         let rec norm t = match t with
+           | CLeaf _ -> t
+           | CNode l ->
+             (match List.map norm l with
+              | [x] -> x
+              | CNode l0 :: r -> CNode (l0 @ r)
+              | l' -> CNode l') in
+         let tree = norm (CNode children) in
+         let ms = flatten tree in
+         let members = List.map (function Some k -> Some (int_of_nat k) | None -> None) ms in
+         let nested = (match tree with CNode l -> List.exists (function CNode _ -> true | _ -> false) l | _ -> false) in
          let sizes = List.map (function Some n -> n | None -> 0) members in
          let n = List.length sizes in
          if n < 1 then "<bad case>" else begin
            let szs = List.map nat_of_int sizes in
-           let ms = List.map (function Some k -> Some (nat_of_int k) | None -> None) members in
            let bare = bare_of ms in
-           let stp = if n <= 1 then compose_step (nat_of_int n) else stepB bare in
-           let evs = Array.of_list (all_events szs) in
-           let s = ref (initB pre ms) in
+           let evs = all_events szs in
            let rng = ref (int_of_string seed + 1) in
-           let continue = ref true in
-           while !continue do
-             (* effective events in the current state *)
-             let eff = List.filter (fun e -> stp !s e <> !s) (Array.to_list evs) in
-             match eff with
-             | [] -> continue := false
-             | _ -> rng := lcg !rng;
-                    let e = List.nth eff ((!rng lsr 8) mod List.length eff) in
-                    s := stp !s e
-           done;
-           let st = !s in
+           let schedule = ref [] in
+           (* run a step function from a state, choosing among the effective events; returns the final state *)
+           let drive (type a) (stp : a -> event -> a) (s0 : a) (replay : event list option) : a =
+             match replay with
+             | Some l -> List.fold_left stp s0 l
+             | None ->
+               let s = ref s0 and continue = ref true in
+               while !continue do
+                 let eff = List.filter (fun e -> stp !s e <> !s) evs in
+                 (match eff with
+                  | [] -> continue := false
+                  | _ -> rng := lcg !rng;
+                         let e = List.nth eff ((!rng lsr 8) mod List.length eff) in
+                         schedule := e :: !schedule;
+                         s := stp !s e)
+               done; !s in
+           let flat_step = if n <= 1 then compose_step (nat_of_int n) else stepB bare in
+           let st, mismatch =
+             if nested then begin
+               let ((ts0, b), owns) = initT pre tree in
+               let ts = drive (stepT b owns) ts0 None in
+               (* the same schedule on the flattened list: the histories must be identical *)
+               let fl = drive flat_step (initB pre ms) (Some (List.rev !schedule)) in
+               (t_s ts, not (log_eqb (log (t_s ts)) (log fl)))
+             end else (drive flat_step (initB pre ms) None, false) in
+           if mismatch then "<model: the nested composition and its flattening have different histories>" else
            let ints l = String.concat "," (List.map (fun x -> string_of_int (int_of_nat x)) l) in
            let b2 b = if b then "1" else "0" in
            Printf.sprintf "n=%d ran=%s begun=%s enq=%s ccb=%d seq=%s clast=%s tpw=%s late=0 act=%d"
